@@ -13,13 +13,7 @@ NaN = float("nan")
 
 META = {
     "level": "exploration",
-    "rule": ("cube cases (both cube types, 0-3 dimensions, multi-axis included) with lists of 2-6 aggregate-function "
-             "objects built from facts/weights in NaN-marked and (values, validity) form with garbage under False; every "
-             "argument is byte-snapshotted around construction, calculate, the ten shortcut methods, walk/interactions; "
-             "calculate(list) is compared with calculate([each]) alone, with every permutation (<=4 functions; sampled "
-             "beyond), with a repeated call and with re-use of the same objects on another cube and back; non-mutating "
-             "index methods are snapshotted likewise. Non-trivial: a call with >=1 missing fact or weight row; distinct "
-             "by content hash"),
+    "rule": ("cube cases (both cube types, 0-3 dimensions, multi-axis included) with lists of 2-6 aggregate-function objects built from facts/weights in NaN-marked and (values, validity) form with garbage under False; every argument is byte-snapshotted around construction, calculate, the ten shortcut methods, walk/interactions; calculate(list) is compared with calculate([each]) alone, with every permutation (<=4 functions; sampled beyond), with a repeated call and with re-use of the same objects on another cube and back; non-mutating index methods are snapshotted likewise; snapshots include the writeable flag; arrays returned by the first calculate are re-read after every later one; arguments edited in place between two calls are compared with byte-identical fresh copies; construction with inferred shape. Non-trivial: a call with >=1 missing fact or weight row; distinct by content hash"),
     "require": {t: ["calls:calculate", "calls:shortcut", "same_array_object_edited_in_place_between_calls:checked", "calls:construct", "calls:construct_with_inferred_shape", "calls:walk", "calls:index_method",
                     "cube:ccube", "cube:xcube", "perm:checked", "reuse_other_cube:checked", "class:garbage_under_false",
                     "reuse_other_rowcount:checked", "repeated_object_in_list:checked", "reuse_zero_dim_cube:checked", "state_on_index_objects:checked"]
@@ -190,8 +184,7 @@ def judge(ctx, case):
         for i, (lv, fz) in enumerate(zip(live_all, r_all)):
             if not same(lv, fz):
                 ctx.violation("returned-result-changed-later:%s:%s" % (kind, case["aggs"][i]),
-                              "the arrays returned by the first calculate (function %d, %s) had changed after %s: a result "
-                              "is a view of state the library goes on using" % (i, case["aggs"][i], after), case)
+                              "the arrays returned by the first calculate (function %d, %s) had changed after %s: a result is a view of state the library goes on using" % (i, case["aggs"][i], after), case)
                 return False
         return True
     if not w.check("calculate(list)"):
@@ -334,8 +327,7 @@ def judge(ctx, case):
             ctx.count("same_array_object_edited_in_place_between_calls:checked")
             if not same(got, want):
                 ctx.violation("stale-after-in-place-edit:%s:%s" % (kind, agg),
-                              "%s.%s on an array edited in place since the previous call differs from the same call on a "
-                              "byte-identical fresh copy" % (kind, agg), case)
+                              "%s.%s on an array edited in place since the previous call differs from the same call on a byte-identical fresh copy" % (kind, agg), case)
                 return
             break
     if kind == "ccube" and dense and all(d.ndim == 1 for d in dense):
@@ -366,8 +358,7 @@ def judge(ctx, case):
         ctx.count("state_on_index_objects:checked")
         if not all(same(a_, b_) for a_, b_ in zip(got, want)):
             ctx.violation("hidden-state-on-index:%s" % feat,
-                          "after an in-place update of dimension %d, a cube over the same index objects differs from a cube over "
-                          "copies of them" % d, case)
+                          "after an in-place update of dimension %d, a cube over the same index objects differs from a cube over copies of them" % d, case)
             return
     if ctx.evals % 53 == 1:
         ctx.sample({"kind": kind, "aggs": case["aggs"], "dense_shapes": [list(d.shape) for d in dense],
@@ -406,8 +397,7 @@ def reuse_other_rowcount(ctx, case, kind, cls):
             ctx.count("reuse_other_rowcount:checked")
             if not same(r2, want2):
                 ctx.violation("reused-count-object-remembers-row-count:%s" % kind,
-                              "a count function first used on a cube of %d rows gives, on a cube of %d rows, a result different "
-                              "from a fresh function (weights=%r)" % (n1, n2, w), case)
+                              "a count function first used on a cube of %d rows gives, on a cube of %d rows, a result different from a fresh function (weights=%r)" % (n1, n2, w), case)
                 return False
             if not same(c1.calculate([f])[0], r1):
                 ctx.violation("reuse-other-cube:%s:count" % kind, "count results on the first cube change after use on another cube", case)
